@@ -16,6 +16,12 @@ Swept dimensions besides the random corpus (lib/c07_util.py): nesting depth 1..4
 types (C07D), the internal boundaries of the encoders (C07B: DER/OER length-of-length edges,
 the 32-octet scratch of the PER bit writer at every put width, the XER hex-dump rows), totals
 2^k-1, 2^k, 2^k+1 for asn_encode_to_new_buffer, extension additions (C07E).
+Primitive BODY LENGTHS across every local scratch / flush boundary of the text encoders, per FLAG SET (lib/c07w_util.py,
+module C07P built with native types and with -fwide-types): INTEGER hex dump 1..45 octets, decimal 1..20 digits, ENUMERATED
+names around asn__format_to_callback's 64, REAL texts around 64, OID / RELATIVE-OID arcs, BIT STRING around 118 characters and
+the rows of 8 octets, UTF8 / BMP / Universal strings with escapes around their 128-octet scratch, time types, long names; the
+INTEGER text is predicted from the contents octets, the INTEGER dump's chunk list by Rt/XerChunk.v; the print routines
+(same body writers) run with the callback failing at every index.
 Each observed run is compared with the extracted model of the wrappers fed with the
 observed fault-free trace (faithfulness), with the model encoders' bytes (DER, UPER, OER) and
 CHUNK LISTS (XER), and with the property evaluated directly in Python on the C output (oracle)."""
@@ -1101,6 +1107,7 @@ def main(tier):
           "extraction: ExtrOcamlBasic only; OCaml 4.13.1; ocaml/drv_c07.ml (parser of named value trees)",
           "harness/moddrv.c + harness/moddrv_c07.inc (fork per encoder call; fault-injecting callback; descriptor walk for the mutations); gcc + ASan/UBSan",
           "lib/modgen.py, lib/modcorpus.py, lib/c07_util.py (value-directed unrolling of recursive types, the names the XER model is given, an own DER encoder for transport); values reach the C as DER through ber_decode",
+          "lib/c07w_util.py (the primitive-body module and its DER values, built octet by octet; the INTEGER text the check predicts); asn1c -fwide-types for the second build of that module",
           "the inner encoders' scripts (DER, UPER, OER) are reconstructed from the C's own fault-free trace (chunk boundaries are observed, not predicted); the XER chunk boundaries ARE predicted by Rt/XerEnc.v"]
     return run.finish("proof", (nthm, ndis), trusted_base=tb,
                       checker_cmd="make -C /verif all && coqc -Q coq A1 coq/Props/Properties_C07.v",
@@ -1108,7 +1115,7 @@ def main(tier):
                                  "rule": "one case = (module, type, value, syntax, fault index k) or (…, buffer size) or (…, mutation site, syntax) or one model line; every k in 0..calls-1 and every size in 0..n+1 for values up to %d invocations / %d octets, a directed sample (ends, chunk boundaries, 2^j, random) above" % (ALL_K, ALL_SIZES),
                                  "traces_validated_against_impl": run.cov["evaluations"]},
                       assumptions=["allocation failure inside asn_encode_to_new_buffer is proved on the model only (not injected into the C)",
-                                   "XER model: INTEGER in the native range, the base algebra of lib/modgen.py (no DEFAULT, no ENUMERATED/REAL/strings other than OCTET STRING)",
+                                   "XER model: the base algebra of lib/modgen.py (no DEFAULT, no ENUMERATED/REAL/strings other than OCTET STRING); INTEGER beyond the native range through Rt/XerChunk.v as a top-level type; the other primitive text bodies are under the oracles on the C alone",
                                    "values above %d invocations / %d octets: sampled fault indices and buffer sizes" % (ALL_K, ALL_SIZES)])
 
 
